@@ -998,6 +998,11 @@ func (s *ServerResp) Encode() *ServerOut {
 			out.Status = HTTPStatusFromCode(s.End.Code)
 			out.Header.Set("Content-Type", "application/json")
 			out.Body, _ = json.Marshal(connectErrorJSON(s.End))
+			if s.CompressEnd && comp != nil {
+				// legal Connect (and plain HTTP): an error body under Content-Encoding
+				out.Header.Set("Content-Encoding", s.Compression)
+				out.Body = comp.Compress(out.Body)
+			}
 			break
 		}
 		out.Header.Set("Content-Type", "application/"+s.Codec)
@@ -1109,6 +1114,10 @@ func (s *ServerResp) Encode() *ServerOut {
 				out.Header.Set("Content-Type", "application/json")
 			}
 			out.Body, _ = protojson.Marshal(StatusProto(s.End))
+			if s.CompressEnd && comp != nil {
+				out.Header.Set("Content-Encoding", s.Compression)
+				out.Body = comp.Compress(out.Body)
+			}
 			break
 		}
 		if out.Header.Get("Content-Type") == "" {
